@@ -9,6 +9,14 @@ ALL = ["C%02d" % i for i in range(1, 21)]
 
 # id -> dict(level, technique, text, note, design_ref, engine)
 CHECKS = {
+    "C10": dict(
+        level="exploration",
+        engine="E1-enum",
+        technique="bounded-exhaustive enumeration of text/tag/marker sequences x 8 settings against an independent model of the whitespace rules; metamorphic delimiter rewriting of every program of the ranked generator space",
+        text="Every source `text tag text tag text` over a 14-text alphabet (blanks, LF, CRLF, brace and delimiter look-alikes) and 36 tags (variable, block, comment, raw x left/right marker in {none,-,+}) under all 8 settings (3.5e6 sources x 8; thorough adds three tags over a 6-text core alphabet, 4.8e8 cases) is rendered and compared byte for byte with an 80-line model that implements the rules exactly as the property words them (lstrip judged on the original source); every single raw block with all 81 inner/outer marker combinations x 6 contents is covered too. For delimiter independence every program of the depth-2 generator space (1.96e5 programs, 3 contexts) is rewritten token by token into 10 delimiter families (prefix-sharing, nested-prefix, single-brace, LaTeX, shared end marker, long, with line statement/comment prefixes) and must render identically; default-looking delimiters embedded as text must come out verbatim; line statements/comments are compared with the tag occupying the line for LF and CRLF.",
+        note="Trusted: the whitespace model in c10.rs (calibrated: it agrees with the engine on all cases after two lexer fixes). Lone-CR line ends and non-ASCII blanks are outside the alphabet. Programs whose text would fuse with a delimiter of the target set are skipped for that set.",
+        design_ref="2/C10",
+    ),
     "C07": dict(
         level="exploration",
         engine="E1-enum",
